@@ -279,6 +279,39 @@ func c16() []*Ob {
 					}
 				}
 			}},
+		{Prop: "C16", ID: "C16.6", Engine: "ORDER", Floor: 1,
+			Desc: "a store's document stream ends only when the stream says so: every return of grpcStreamIterator.Next is dominated by the Recv call of that invocation — the iterator never synthesises end-of-stream (or a document) from its own counters, which count documents the store was not asked for as well",
+			Check: func(c *Ctx) {
+				fn := c.Fn("(*proxy/search.grpcStreamIterator).Next")
+				if fn == nil {
+					return
+				}
+				recv := c.P.MustCall(func(cl ssa.CallInstruction) bool {
+					return strings.HasSuffix(CallName(cl), ".Recv") || CallName(cl) == "dynamic:Recv"
+				})
+				rc := CallsIn(fn, recv)
+				if len(rc) == 0 {
+					c.Undecided("order:grpcStreamIterator.Next:no-recv", fn.Pos(), "grpcStreamIterator.Next no longer receives from the stream")
+					return
+				}
+				for _, b := range fn.Blocks {
+					ret, ok := b.Instrs[len(b.Instrs)-1].(*ssa.Return)
+					if !ok {
+						continue
+					}
+					dom := false
+					for _, r := range rc {
+						if Dominates(r.(ssa.Instruction), ret) {
+							dom = true
+						}
+					}
+					if dom {
+						c.Site(ret.Pos(), "returns after this call's Recv")
+					} else {
+						c.Violation("order:grpcStreamIterator.Next:return-without-recv", ret.Pos(), "grpcStreamIterator.Next can return without having received from the stream: an end of stream derived from the iterator's own count is wrong as soon as a store sends one document it was not asked for (or one twice) — the remaining requested documents of that store come back empty")
+					}
+				}
+			}},
 		{Prop: "C16", ID: "C16.5", Engine: "DOM+ORDER", Floor: 2,
 			Desc: "i-th document is the i-th id's: mergedStreamIterator.Next consumes exactly one id per non-EOF call, fast-forwards over every unexpected document in a loop, returns the buffered document only when currentID.Equal(nextDoc.IDSource()) and an empty document otherwise; the iterator's less function is built from the same ids it walks",
 			Check: func(c *Ctx) {
